@@ -149,8 +149,12 @@ func runLoadOrder(name string) mon.Result {
 	if len(vs) == 0 {
 		sources = append(sources, source{"by name", name, refA, ""})
 	}
-	for _, mask := range []int{allButDriverType, 0xFF, 1 << 4} {
-		gb, err := genVariantDef(ab, mask, "")
+	for gi, mask := range []int{allButDriverType, 0xFF, 1 << 4, allButDriverType} {
+		style := ""
+		if gi == 3 {
+			style = "renamed"
+		}
+		gb, err := genVariantDef(ab, mask, style)
 		if err != nil {
 			return mon.Result{Verdict: mon.Inconclusive, Detail: "harness: " + err.Error()}
 		}
@@ -158,7 +162,7 @@ func runLoadOrder(name string) mon.Result {
 		if err != nil {
 			return mon.Result{Verdict: mon.Inconclusive, Detail: "harness: generated definition does not parse: " + err.Error()}
 		}
-		sources = append(sources, source{fmt.Sprintf("from bytes, generated variant defining %v", maskSections(mask)), gb, gref, "gen"})
+		sources = append(sources, source{fmt.Sprintf("from bytes, generated variant (level names %q) defining %v", style, maskSections(mask)), gb, gref, "gen"})
 	}
 	obs := map[string]int64{}
 	var conns []*devsim.Conn
